@@ -305,6 +305,15 @@ func (cd *cmdDispatcher) addHandler(cmdToken string, handler cmdHandler) {
 func (cd *cmdDispatcher) prepare(cs *clientState, input respValue) (ctx *cmdContext, response any) {
 	l := cs.l
 
+	// a command that is rejected while a transaction is being queued makes EXEC fail
+	defer func() {
+		if ctx == nil && response != nil && cs.cmdQueue != nil {
+			if _, rejected := response.(respErrorString); rejected {
+				cs.cmdQueueAborted = true
+			}
+		}
+	}()
+
 	traceJson, _ := json.Marshal(input.toNative())
 	l.Tracef("client %d dispatching %s", cs.id, string(traceJson))
 
